@@ -142,8 +142,11 @@ JAC_REPRS = ["float64", "int64", "int32", "float32", "complex", "fortran", "stri
 COND_MAX = 1e3
 
 
+N_SHARDS = 16
+
+
 def shards(tier, seed):
-    n = 16
+    n = N_SHARDS
     per = {"quick": 100, "thorough": 700}[tier]
     exh = {"quick": 3, "thorough": 14}[tier]
     return [{"seed": subseed(seed, PID, i), "n_seq": per, "n_exh": exh,
@@ -608,7 +611,7 @@ def _lin_disc(i, ins, ysz, fsz=None, coef=0.3):
 
 
 def directed_cases():
-    """Fixed corners named in DESIGN.md and the mechanisms found while building the check (run in shard 0)."""
+    """Fixed corners named in DESIGN.md and the mechanisms found while building the check (dealt round-robin to the shards)."""
     out = []
     point = {"x": [0.3, -0.7], "z0": [0.5], "z1": [0.1, 0.2, -0.4], "z2": [0.25], "z3": [-0.3, 0.6]}
 
@@ -694,10 +697,10 @@ def directed_cases():
 # --------------------------------------------------------------------------- entry points
 def run_shard(spec, rep):
     rng = np.random.default_rng(spec["seed"])
-    if spec.get("shard", 0) == 0:
-        for case in directed_cases():
-            run_case(case, rep)
-            rep.count("directed_requests")
+    # the directed cases are always run; they are dealt round-robin to the shards (they cost about one minute of CPU)
+    for case in directed_cases()[spec.get("shard", 0)::N_SHARDS]:
+        run_case(case, rep)
+        rep.count("directed_requests")
     for _ in range(2):
         reference_self_test(rng, rep)
     for i in range(spec["n_exh"]):
